@@ -45,6 +45,8 @@ pub enum Violation {
   Overlap { r: ResId, first: TaskId, second: TaskId },
   HiddenRead { r: ResId, reader: TaskId, writer: TaskId },
   HiddenWrite { r: ResId, writer: TaskId, reader: TaskId },
+  /// Not a diagnosed violation: the task itself panics in this state.
+  TaskPanic { t: TaskId },
 }
 
 impl Violation {
@@ -54,6 +56,7 @@ impl Violation {
       Violation::Overlap { .. } => "overlap",
       Violation::HiddenRead { .. } => "hidden-read",
       Violation::HiddenWrite { .. } => "hidden-write",
+      Violation::TaskPanic { .. } => "task-panic",
     }
   }
 }
@@ -165,6 +168,9 @@ impl<'p> Eval<'p> {
         }
         Stmt::If { cond, then, els } => {
           if cond.eval(env) != 0 { self.block(me, then, env)?; } else { self.block(me, els, env)?; }
+        }
+        Stmt::PanicIf { cond } => {
+          if cond.eval(env) != 0 { self.violation = Some(Violation::TaskPanic { t: me }); return Err(()); }
         }
       }
     }
